@@ -379,6 +379,10 @@ def corruptions(rec, rng=None, sample=None, n_replace=None):
         sites.update(dict(edif_design_sites(t, sp)))
         for i in sorted(sites):
             out.append({"kind": "retarget", "pos": i, "ref": sites[i], "with": "zz_undeclared"})
+            cur = t[sp[i][0]:sp[i][1]]
+            if cur.swapcase() != cur:
+                # EDIF identifiers are case-insensitive: still the same reference
+                out.append({"kind": "recase", "pos": i, "ref": sites[i], "with": cur.swapcase()})
         tok = [t[a:b] for a, b in sp]
         for i in range(n - 1):
             if tok[i] == "(" and tok[i + 1].lower() in UNSUPPORTED_AT:
@@ -412,7 +416,7 @@ def apply(rec, c):
         return t[:a] + t[b:]
     if k == "duplicate":
         return t[:b] + " " + t[a:b] + t[b:]
-    if k in ("replace", "retarget"):
+    if k in ("replace", "retarget", "recase"):
         return t[:a] + c["with"] + t[b:]
     if k == "unsupported":
         return t[:a] + c["with"] + " " + t[a:]
